@@ -217,6 +217,27 @@ BREAKING = [
     ('c15-class-ctx-no-line', ['C15'], [(A, 'def log_constant(pass_name, item, value):', 'class LineErrors:\n    """re-raise the given low-level errors of the enclosed block as AssemblerErrors of a line"""\n\n    def __init__(self, line, *types):\n        self.line = line\n        self.types = types\n\n    def __enter__(self):\n        return self\n\n    def __exit__(self, exc_type, exc, tb):\n        if exc_type is not None and issubclass(exc_type, self.types):\n            raise AssemblerError(str(exc), None) from exc\n        return False\n\n\ndef log_constant(pass_name, item, value):'), (A, '        try:\n            # atomic insts expect aq and rl as kwargs\n            if isinstance(item, ATypeInstruction) or isinstance(item, ALTypeInstruction):\n                *args, aq, rl = item.args()\n                code = encode_func(*args, aq=aq, rl=rl)\n            else:\n                args = item.args()\n                code = encode_func(*args)\n        except ValueError as e:\n            raise AssemblerError(str(e), item.line)\n', '        with LineErrors(item.line, ValueError):\n            # atomic insts expect aq and rl as kwargs\n            if isinstance(item, (ATypeInstruction, ALTypeInstruction)):\n                *args, aq, rl = item.args()\n                code = encode_func(*args, aq=aq, rl=rl)\n            else:\n                code = encode_func(*item.args())\n')]),
     ('c15-decorator-wrong-type', ['C15'], [(A, 'def resolve_instructions(items):', 'def converts_value_errors(fn):\n    def wrapper(item):\n        try:\n            return fn(item)\n        except KeyError as e:\n            raise AssemblerError(str(e), item.line)\n    return wrapper\n\n\n@converts_value_errors\ndef encode_item(item):\n    encode_func = INSTRUCTIONS[item.name]\n    if isinstance(item, (ATypeInstruction, ALTypeInstruction)):\n        *args, aq, rl = item.args()\n        return encode_func(*args, aq=aq, rl=rl)\n    return encode_func(*item.args())\n\n\ndef resolve_instructions(items):'), (A, '        encode_func = INSTRUCTIONS[item.name]\n        try:\n            # atomic insts expect aq and rl as kwargs\n            if isinstance(item, ATypeInstruction) or isinstance(item, ALTypeInstruction):\n                *args, aq, rl = item.args()\n                code = encode_func(*args, aq=aq, rl=rl)\n            else:\n                args = item.args()\n                code = encode_func(*args)\n        except ValueError as e:\n            raise AssemblerError(str(e), item.line)\n', '        code = encode_item(item)\n')]),
     ('c15-registry-misses-pass', ['C15'], [(A, 'def resolve_strings(items):', 'LATE_PASSES = []\n\n\ndef late_pass(fn):\n    LATE_PASSES.append(fn)\n    return fn\n\n\n@late_pass\ndef resolve_strings(items):'), (A, 'def resolve_sequences(items):', '@late_pass\ndef resolve_sequences(items):'), (A, 'def transform_shorthand_packs(items):', '@late_pass\ndef transform_shorthand_packs(items):'), (A, 'def resolve_include_bytes(items):', '@late_pass\ndef resolve_include_bytes(items):'), (A, '    items = resolve_strings(items)\n    items = resolve_sequences(items)\n    items = transform_shorthand_packs(items)\n    items = resolve_packs(items)\n    items = resolve_include_bytes(items)\n', '    for late in LATE_PASSES:\n        items = late(items)\n')]),
+    # white-box round: reshaped handlers, guards that are sufficient, numbering pipelines
+    ('c15-handler-filter-wrong-type', ['C15'], [(A, '        except ValueError as e:\n            raise AssemblerError(str(e), item.line)\n\n        # pack into 2 bytes', '        except Exception as e:\n            if not isinstance(e, KeyError):\n                raise\n            raise AssemblerError(str(e), item.line)\n\n        # pack into 2 bytes')]),
+    ('c15-is-int-guard-other-value', ['C15'], [(A, "        try:\n            alignment = int(alignment, base=0)\n        except ValueError:\n            raise AssemblerError('alignment must be an integer', line)\n", "        if not is_int(tokens[0] or alignment):\n            raise AssemblerError('alignment must be an integer', line)\n        alignment = int(alignment, base=0)\n")]),
+    ('c15-enumerate-list-copy-zero', ['C15'], [(A, '    for i, raw_line in enumerate(source.splitlines(), start=1):\n', '    for i, raw_line in enumerate(list(source.splitlines()), start=0):\n')]),
+    ('c15-zip-count-zero', ['C15'], [(A, 'import abc\n', 'import abc\nimport itertools\n'), (A, '    for i, raw_line in enumerate(source.splitlines(), start=1):\n', '    for i, raw_line in zip(itertools.count(0), source.splitlines()):\n')]),
+    ('c15-isdigit-guard', ['C15'], [(A, "        try:\n            alignment = int(alignment, base=0)\n        except ValueError:\n            raise AssemblerError('alignment must be an integer', line)\n", "        if alignment.isdigit() and not alignment.startswith('0'):\n            alignment = int(alignment)\n        else:\n            try:\n                alignment = int(alignment, base=0)\n            except ValueError:\n                raise AssemblerError('alignment must be an integer', line)\n")]),
+    ('c15-range-index-off-by-one', ['C15'], [(A, '    for i, raw_line in enumerate(source.splitlines(), start=1):\n', '    rows = source.splitlines()\n    for i in range(1, len(rows) + 1):\n        raw_line = rows[i - 1]\n'), (A, '        line = Line(path, i, raw_line)\n', '        line = Line(path, i + 1, raw_line)\n')]),
+    ('c15-blobs-any-guard-skips-pass', ['C15'], [(A, "    output = bytearray()\n    for item in items:\n        if not isinstance(item, Blob):\n            raise ValueError('expected only blobs at this point')\n\n        output.extend(item.data)\n", "    if any(not isinstance(item, Blob) for item in items):\n        raise ValueError('expected only blobs at this point')\n\n    output = bytearray()\n    for item in items:\n        output.extend(item.data)\n"), (A, '    items = resolve_strings(items)\n', '')]),
+    ('c15-range-guard-one-side', ['C15'], [(A, "        blob = Blob(item.line, data)\n        new_items.append(blob)\n\n        log_conversion('resolve_include_bytes', item, blob)", "        size = item.fsize\n        if size < 0:\n            raise AssemblerError('bad size', item.line)\n        log.info('size field: {}'.format(struct.pack('<I', size).hex()))\n        blob = Blob(item.line, data)\n        new_items.append(blob)\n\n        log_conversion('resolve_include_bytes', item, blob)")]),
+    ('c15-none-line-before-opaque-code', ['C15'], [(A, "            raise AssemblerError('alignment must be an integer', line)\n", "            raise AssemblerError('alignment must be an integer', None)\n"), (A, 'def resolve_blobs(items):\n', "def resolve_blobs(items):\n    exec('pass')\n")]),
+    # round 7: table lookups with user keys, conversions behind the repository's own predicate, elements read back
+    ('c15-sequence-constants-keyerror', ['C15'], [(A, 'def resolve_sequences(items):', 'def resolve_sequences(items, constants):'), (A, '    items = resolve_sequences(items)\n', '    items = resolve_sequences(items, constants)\n'), (A, '        try:\n            values = [int(value, base=0) for value in item.values]\n        except ValueError as e:\n            raise AssemblerError(str(e), item.line)\n', '        try:\n            values = [int(value, base=0) if is_int(value) else constants[value] for value in item.values]\n        except ValueError as e:\n            raise AssemblerError(str(e), item.line)\n')]),
+    ('c15-size-is-int-other-arg', ['C15'], [(A, "        if self.name in ['li', 'call', 'tail']:\n            return 8\n", "        if self.name == 'li' and len(self.args) == 2 and is_int(self.args[0]):\n            value = c_int32(int(self.args[1], base=0)).value\n            return 8 if value != value else 8\n        if self.name in ['li', 'call', 'tail']:\n            return 8\n")]),
+    ('c15-lookup-before-handler', ['C15'], [(A, '        # check if any set of criteria is all true for this item\n        compressed = None\n', "        if isinstance(item, RTypeInstruction) and item.name == 'slli' and lookup_register(item.rd) == 0:\n            log.debug('shift into x0')\n        # check if any set of criteria is all true for this item\n        compressed = None\n")]),
+    ('c15-byte-fastpath-unguarded', ['C15'], [(A, '            try:\n                value = struct.pack(fmt, value)\n', "            if item.name == 'bytes' and value >= 0:\n                data.extend(bytes([value]))\n                continue\n            try:\n                value = struct.pack(fmt, value)\n")]),
+    ('c15-error-builder-wrong-attr', ['C15'], [(A, "    def __init__(self, message, line):\n        super().__init__(message)\n        self.message = message\n        self.line = line\n\n    def __str__(self):\n        return '{}\\nAssemblerError: {}'.format(self.line, self.message)\n", "    def __init__(self, message, line):\n        super().__init__(message)\n        self.message = message\n        self.line = line\n\n    def at(self, line):\n        self.where = line\n        return self\n\n    def __str__(self):\n        return '{}\\nAssemblerError: {}'.format(self.line, self.message)\n"), (A, "            raise AssemblerError('alignment must be an integer', line)\n", "            raise AssemblerError('alignment must be an integer', None).at(line)\n")]),
+    ('c15-error-no-str-message-only', ['C15'], [(A, "    def __init__(self, message, line):\n        super().__init__(message)\n        self.message = message\n        self.line = line\n\n    def __str__(self):\n        return '{}\\nAssemblerError: {}'.format(self.line, self.message)\n", '    def __init__(self, message, line):\n        super().__init__(message)\n        self.message = message\n        self.line = line\n')]),
+    ('c15-error-str-alias-no-line', ['C15'], [(A, "    def __str__(self):\n        return '{}\\nAssemblerError: {}'.format(self.line, self.message)\n", "    def describe(self):\n        return 'AssemblerError: {}'.format(self.message)\n\n    __str__ = describe\n")]),
+    ('c15-lines-iter-zero', ['C15'], [(A, '    for i, raw_line in enumerate(source.splitlines(), start=1):\n', '    rows = iter(source.splitlines())\n    for i, raw_line in enumerate(rows, start=0):\n')]),
+    ('c15-lines-genexp-filtered', ['C15'], [(A, '    for i, raw_line in enumerate(source.splitlines(), start=1):\n', '    for i, raw_line in enumerate((row for row in source.splitlines() if row.strip()), start=1):\n')]),
+    ('c15-error-tuple-assign-none', ['C15'], [(A, "    def __init__(self, message, line):\n        super().__init__(message)\n        self.message = message\n        self.line = line\n\n    def __str__(self):\n        return '{}\\nAssemblerError: {}'.format(self.line, self.message)\n", "    def __init__(self, message, line):\n        super().__init__(message)\n        self.message, self.line = message, None\n\n    def __str__(self):\n        return '{}\\nAssemblerError: {}'.format(self.line, self.message)\n")]),
     ('c15-local-rule-class-no-try', ['C15'], [(A, '    position = 0\n    new_items = []\n    for item in items:\n        # skip non-instructions and pseudo-instructions\n', '    class Rule:\n        def __init__(self, form, checks):\n            self.form = form\n            self.checks = checks\n\n        def matches(self, item, position, env):\n            return all(check(item, position, env) for check in self.checks)\n\n    rules = [Rule(form, checks) for form, checks in criteria.items()]\n\n    position = 0\n    new_items = []\n    for item in items:\n        # skip non-instructions and pseudo-instructions\n', 0), (A, '        try:\n            for name, preds in criteria.items():\n                if all(pred(item, position, env) for pred in preds):\n                    compressed = name\n                    break\n        except ValueError as e:\n            raise AssemblerError(str(e), item.line)\n', '        for rule in rules:\n            if rule.matches(item, position, env):\n                compressed = rule.form\n                break\n')]),
     ('c15-while-index-zero-based', ['C15'], [(A, '    for i, raw_line in enumerate(source.splitlines(), start=1):\n', '    rows = source.splitlines()\n    i = -1\n    while i + 1 < len(rows):\n        i += 1\n        raw_line = rows[i]\n')]),
     ('c15-to-bytes-overflow', ['C15'], [(A, '                value = struct.pack(fmt, value)\n', "                value = value.to_bytes(struct.calcsize(fmt), 'little', signed=value < 0)\n")]),
@@ -228,7 +249,6 @@ BREAKING = [
     ('c16-mutable-default', ['C16'], [(A, "def assemble(path_or_source, *, constants=None, labels=None, compress=False, include_dirs=None):", "def assemble(path_or_source, *, constants={}, labels={}, compress=False, include_dirs=None):")]),
     ('c16-registers-alias', ['C16'], [(A, "        constants[item.name] = value\n", "        constants[item.name] = value\n        REGISTERS[item.name] = value\n")]),
     ('c16-keywords-add', ['C16'], [(A, "        labels[item.name] = position\n", "        labels[item.name] = position\n        KEYWORDS.add(item.name)\n")]),
-    ('c16-set-iteration', ['C16'], [(A, "        for key, value in d.items():\n            # skip if item field is not a register\n            if key not in REGS:\n                continue", "        for key in REGS & set(d.keys()):\n            value = d[key]")]),
     ('c16-lru-cache', ['C16'], [(A, "def lex_tokens(line):", "import functools\n\n\n@functools.lru_cache(maxsize=None)\ndef lex_tokens(line):")]),
     ('c16-module-cache', ['C16'], [(A, "def resolve_labels(items, labels):\n    position = 0", "_LABEL_CACHE = {}\n\n\ndef resolve_labels(items, labels):\n    labels.update(_LABEL_CACHE)\n    _LABEL_CACHE.update(labels)\n    position = 0")]),
     ('c16-chainmap-order', ['C16'], [(A, "        env = ChainMap(constants, REGISTERS)", "        env = ChainMap(REGISTERS, constants)")]),
@@ -385,6 +405,51 @@ PRESERVING = [
     ('p15-pass-registry', ['C15'], [(A, 'def resolve_strings(items):', 'LATE_PASSES = []\n\n\ndef late_pass(fn):\n    LATE_PASSES.append(fn)\n    return fn\n\n\n@late_pass\ndef resolve_strings(items):'), (A, 'def resolve_sequences(items):', '@late_pass\ndef resolve_sequences(items):'), (A, 'def transform_shorthand_packs(items):', '@late_pass\ndef transform_shorthand_packs(items):'), (A, 'def resolve_packs(items):', '@late_pass\ndef resolve_packs(items):'), (A, 'def resolve_include_bytes(items):', '@late_pass\ndef resolve_include_bytes(items):'), (A, '    items = resolve_strings(items)\n    items = resolve_sequences(items)\n    items = transform_shorthand_packs(items)\n    items = resolve_packs(items)\n    items = resolve_include_bytes(items)\n', '    for late in LATE_PASSES:\n        items = late(items)\n')]),
     ('p15-line-dataclass', ['C15'], [(A, 'class Line:\n\n    def __init__(self, file, number, contents):\n        self.file = file\n        self.number = number\n        self.contents = contents\n        # resolved path of the file named by an include_bytes line (set by the reader)\n        self.include_path = None\n', 'import dataclasses\nimport typing\n\n\n@dataclasses.dataclass\nclass Line:\n    file: str\n    number: int\n    contents: str\n    # resolved path of the file named by an include_bytes line (set by the reader)\n    include_path: typing.Optional[str] = None\n')]),
     ('p15-linetokens-namedtuple', ['C15'], [(A, 'class LineTokens:\n\n    def __init__(self, line, tokens):\n        self.line = line\n        self.tokens = tokens\n', 'import typing\n\n\nclass LineTokens(typing.NamedTuple):\n    line: Line\n    tokens: list\n'), (A, '    line = line_tokens.line\n    tokens = line_tokens.tokens\n', '    line, tokens = line_tokens\n')]),
+    ('p15-handler-filter-reraise', ['C15'], [(A, '        except ValueError as e:\n            raise AssemblerError(str(e), item.line)\n\n        # pack into 2 bytes', '        except Exception as e:\n            if not isinstance(e, ValueError):\n                raise\n            raise AssemblerError(str(e), item.line)\n\n        # pack into 2 bytes')]),
+    ('p15-is-int-guard', ['C15'], [(A, "        try:\n            alignment = int(alignment, base=0)\n        except ValueError:\n            raise AssemblerError('alignment must be an integer', line)\n", "        if not is_int(alignment):\n            raise AssemblerError('alignment must be an integer', line)\n        alignment = int(alignment, base=0)\n")]),
+    ('p15-enumerate-list-copy', ['C15'], [(A, '    for i, raw_line in enumerate(source.splitlines(), start=1):\n', '    for i, raw_line in enumerate(list(source.splitlines()), start=1):\n')]),
+    ('p15-zip-count', ['C15'], [(A, 'import abc\n', 'import abc\nimport itertools\n'), (A, '    for i, raw_line in enumerate(source.splitlines(), start=1):\n', '    for i, raw_line in zip(itertools.count(1), source.splitlines()):\n')]),
+    ('p15-line-rebuilt', ['C15'], [(A, "            line.contents = '{} {}'.format(raw_line, size)\n", "            line = Line(line.file, line.number, '{} {}'.format(raw_line, size))\n")]),
+    ('p15-str-args0', ['C15'], [(A, "        return '{}\\nAssemblerError: {}'.format(self.line, self.message)", "        return '{}\\nAssemblerError: {}'.format(self.line, self.args[0])")]),
+    ('p15-handler-const-tuple', ['C15'], [(A, 'def resolve_instructions(items):', 'ENCODING_ERRORS = (ValueError,)\n\n\ndef resolve_instructions(items):'), (A, '        except ValueError as e:\n            raise AssemblerError(str(e), item.line)\n\n        # pack into 2 bytes', '        except ENCODING_ERRORS as e:\n            raise AssemblerError(str(e), item.line)\n\n        # pack into 2 bytes')]),
+    ('p15-reraise-helper', ['C15'], [(A, 'def resolve_instructions(items):', 'def line_error(e, line):\n    raise AssemblerError(str(e), line)\n\n\ndef resolve_instructions(items):'), (A, '        except ValueError as e:\n            raise AssemblerError(str(e), item.line)\n\n        # pack into 2 bytes', '        except ValueError as e:\n            line_error(e, item.line)\n\n        # pack into 2 bytes')]),
+    ('p15-try-around-loop', ['C15'], [(A, '    new_items = []\n    for item in items:\n        if not isinstance(item, Pack):\n            new_items.append(item)\n            continue\n\n        try:\n            data = struct.pack(item.fmt, item.imm)\n        except struct.error as e:\n            raise AssemblerError(\'value {} does not fit pack format "{}": {}\'.format(item.imm, item.fmt, e), item.line)\n        blob = Blob(item.line, data)\n        new_items.append(blob)\n\n        log_conversion(\'resolve_packs\', item, blob)\n\n    return new_items\n', '    new_items = []\n    try:\n        for item in items:\n            if not isinstance(item, Pack):\n                new_items.append(item)\n                continue\n\n            data = struct.pack(item.fmt, item.imm)\n            blob = Blob(item.line, data)\n            new_items.append(blob)\n\n            log_conversion(\'resolve_packs\', item, blob)\n    except struct.error as e:\n        raise AssemblerError(\'value {} does not fit pack format "{}": {}\'.format(item.imm, item.fmt, e), item.line)\n\n    return new_items\n')]),
+    ('p15-isdecimal-guard', ['C15'], [(A, "        try:\n            alignment = int(alignment, base=0)\n        except ValueError:\n            raise AssemblerError('alignment must be an integer', line)\n", "        if alignment.isdecimal() and not alignment.startswith('0'):\n            alignment = int(alignment)\n        else:\n            try:\n                alignment = int(alignment, base=0)\n            except ValueError:\n                raise AssemblerError('alignment must be an integer', line)\n")]),
+    ('p15-regex-digits', ['C15'], [(A, 'def parse_item(line_tokens):', "RE_DECIMAL = re.compile(r'(\\d+)$')\n\n\ndef parse_item(line_tokens):"), (A, "        try:\n            alignment = int(alignment, base=0)\n        except ValueError:\n            raise AssemblerError('alignment must be an integer', line)\n", "        decimal = RE_DECIMAL.match(alignment)\n        if decimal is not None and not alignment.startswith('0'):\n            alignment = int(decimal.group(1))\n        else:\n            try:\n                alignment = int(alignment, base=0)\n            except ValueError:\n                raise AssemblerError('alignment must be an integer', line)\n")]),
+    ('p15-range-index-minus-one', ['C15'], [(A, '    for i, raw_line in enumerate(source.splitlines(), start=1):\n', '    rows = source.splitlines()\n    for i in range(1, len(rows) + 1):\n        raw_line = rows[i - 1]\n')]),
+    ('p15-items-by-index', ['C15'], [(A, '    for item in items:\n        if not isinstance(item, String):', '    for index in range(len(items)):\n        item = items[index]\n        if not isinstance(item, String):')]),
+    ('p15-line-through-dict', ['C15'], [(A, "        blob = Blob(item.line, item.value.encode('utf-8'))\n", "        ctx = {'line': item.line, 'text': item.value}\n        blob = Blob(ctx['line'], ctx['text'].encode('utf-8'))\n")]),
+    ('p15-blobs-any-guard', ['C15'], [(A, "    output = bytearray()\n    for item in items:\n        if not isinstance(item, Blob):\n            raise ValueError('expected only blobs at this point')\n\n        output.extend(item.data)\n", "    if any(not isinstance(item, Blob) for item in items):\n        raise ValueError('expected only blobs at this point')\n\n    output = bytearray()\n    for item in items:\n        output.extend(item.data)\n")]),
+    ('p15-blobs-all-guard', ['C15'], [(A, "    output = bytearray()\n    for item in items:\n        if not isinstance(item, Blob):\n            raise ValueError('expected only blobs at this point')\n\n        output.extend(item.data)\n", "    if not all(isinstance(item, Blob) for item in items):\n        raise ValueError('expected only blobs at this point')\n\n    output = bytearray()\n    for item in items:\n        output.extend(item.data)\n")]),
+    ('p15-blobs-filter-guard', ['C15'], [(A, "    output = bytearray()\n    for item in items:\n        if not isinstance(item, Blob):\n            raise ValueError('expected only blobs at this point')\n\n        output.extend(item.data)\n", "    if list(filter(lambda item: not isinstance(item, Blob), items)):\n        raise ValueError('expected only blobs at this point')\n\n    output = bytearray()\n    for item in items:\n        output.extend(item.data)\n")]),
+    ('p15-range-guard-or', ['C15'], [(A, "        blob = Blob(item.line, data)\n        new_items.append(blob)\n\n        log_conversion('resolve_include_bytes', item, blob)", "        size = item.fsize\n        if size < 0 or size > 0xffffffff:\n            raise AssemblerError('file too large', item.line)\n        log.info('size field: {}'.format(struct.pack('<I', size).hex()))\n        blob = Blob(item.line, data)\n        new_items.append(blob)\n\n        log_conversion('resolve_include_bytes', item, blob)")]),
+    ('p15-range-guard-chain', ['C15'], [(A, "        blob = Blob(item.line, data)\n        new_items.append(blob)\n\n        log_conversion('resolve_include_bytes', item, blob)", "        size = item.fsize\n        if not 0 <= size < 2 ** 64:\n            raise AssemblerError('file too large', item.line)\n        log.info('size field: {}'.format(size.to_bytes(8, 'little').hex()))\n        blob = Blob(item.line, data)\n        new_items.append(blob)\n\n        log_conversion('resolve_include_bytes', item, blob)")]),
+    ('p15-pack-length', ['C15'], [(A, "        blob = Blob(item.line, data)\n        new_items.append(blob)\n\n        log_conversion('resolve_include_bytes', item, blob)", "        log.info('length field: {}'.format(struct.pack('<I', len(data)).hex()))\n        blob = Blob(item.line, data)\n        new_items.append(blob)\n\n        log_conversion('resolve_include_bytes', item, blob)")]),
+    # round 7: table lookups with user keys, conversions behind the repository's own predicate, elements read back
+    ('p15-sequence-constants-in', ['C15'], [(A, 'def resolve_sequences(items):', 'def resolve_sequences(items, constants):'), (A, '    items = resolve_sequences(items)\n', '    items = resolve_sequences(items, constants)\n'), (A, '        try:\n            values = [int(value, base=0) for value in item.values]\n        except ValueError as e:\n            raise AssemblerError(str(e), item.line)\n', "        values = []\n        for value in item.values:\n            if is_int(value):\n                values.append(int(value, base=0))\n            elif value in constants:\n                values.append(constants[value])\n            else:\n                raise AssemblerError('invalid literal: {}'.format(value), item.line)\n")]),
+    ('p15-sequence-constants-not-in', ['C15'], [(A, 'def resolve_sequences(items):', 'def resolve_sequences(items, constants):'), (A, '    items = resolve_sequences(items)\n', '    items = resolve_sequences(items, constants)\n'), (A, '        try:\n            values = [int(value, base=0) for value in item.values]\n        except ValueError as e:\n            raise AssemblerError(str(e), item.line)\n', "        values = []\n        for value in item.values:\n            if is_int(value):\n                values.append(int(value, base=0))\n                continue\n            if value not in constants:\n                raise AssemblerError('invalid literal: {}'.format(value), item.line)\n            values.append(constants[value])\n")]),
+    ('p15-sequence-constants-get', ['C15'], [(A, 'def resolve_sequences(items):', 'def resolve_sequences(items, constants):'), (A, '    items = resolve_sequences(items)\n', '    items = resolve_sequences(items, constants)\n'), (A, '        try:\n            values = [int(value, base=0) for value in item.values]\n        except ValueError as e:\n            raise AssemblerError(str(e), item.line)\n', "        values = []\n        for value in item.values:\n            number = int(value, base=0) if is_int(value) else constants.get(value)\n            if number is None:\n                raise AssemblerError('invalid literal: {}'.format(value), item.line)\n            values.append(number)\n")]),
+    ('p15-sequence-constants-handler', ['C15'], [(A, 'def resolve_sequences(items):', 'def resolve_sequences(items, constants):'), (A, '    items = resolve_sequences(items)\n', '    items = resolve_sequences(items, constants)\n'), (A, '        try:\n            values = [int(value, base=0) for value in item.values]\n        except ValueError as e:\n            raise AssemblerError(str(e), item.line)\n', '        try:\n            values = [int(value, base=0) if is_int(value) else constants[value] for value in item.values]\n        except (ValueError, KeyError) as e:\n            raise AssemblerError(str(e), item.line)\n')]),
+    ('p15-sequence-constants-lookuperror', ['C15'], [(A, 'def resolve_sequences(items):', 'def resolve_sequences(items, constants):'), (A, '    items = resolve_sequences(items)\n', '    items = resolve_sequences(items, constants)\n'), (A, '        try:\n            values = [int(value, base=0) for value in item.values]\n        except ValueError as e:\n            raise AssemblerError(str(e), item.line)\n', "        try:\n            values = [int(value, base=0) if is_int(value) else constants[value] for value in item.values]\n        except LookupError as e:\n            raise AssemblerError('undefined constant: {}'.format(e), item.line)\n")]),
+    ('p15-size-is-int-literal', ['C15'], [(A, "        if self.name in ['li', 'call', 'tail']:\n            return 8\n", "        if self.name == 'li' and len(self.args) == 2 and is_int(self.args[1]):\n            value = c_int32(int(self.args[1], base=0)).value\n            return 8 if value != value else 8\n        if self.name in ['li', 'call', 'tail']:\n            return 8\n")]),
+    ('p15-byte-fastpath-guarded', ['C15'], [(A, '            try:\n                value = struct.pack(fmt, value)\n            except struct.error as e:\n                raise AssemblerError(\'value {} does not fit "{}": {}\'.format(value, item.name, e), item.line)\n            data.extend(value)\n', '            if item.name == \'bytes\' and 0 <= value < 256:\n                data.extend(bytes([value]))\n                continue\n            try:\n                value = struct.pack(fmt, value)\n            except struct.error as e:\n                raise AssemblerError(\'value {} does not fit "{}": {}\'.format(value, item.name, e), item.line)\n            data.extend(value)\n')]),
+    ('p15-byte-append-guarded', ['C15'], [(A, '            try:\n                value = struct.pack(fmt, value)\n            except struct.error as e:\n                raise AssemblerError(\'value {} does not fit "{}": {}\'.format(value, item.name, e), item.line)\n            data.extend(value)\n', '            if item.name == \'bytes\' and 0 <= value <= 255:\n                data.append(value)\n                continue\n            try:\n                value = struct.pack(fmt, value)\n            except struct.error as e:\n                raise AssemblerError(\'value {} does not fit "{}": {}\'.format(value, item.name, e), item.line)\n            data.extend(value)\n')]),
+    ('p15-range-check-to-bytes', ['C15'], [(A, '            try:\n                value = struct.pack(fmt, value)\n            except struct.error as e:\n                raise AssemblerError(\'value {} does not fit "{}": {}\'.format(value, item.name, e), item.line)\n            data.extend(value)\n', '            width = struct.calcsize(fmt)\n            if value < 0:\n                lo, hi = -(1 << (8 * width - 1)), (1 << (8 * width - 1)) - 1\n            else:\n                lo, hi = 0, (1 << (8 * width)) - 1\n            if not lo <= value <= hi:\n                raise AssemblerError(\'value {} does not fit "{}"\'.format(value, item.name), item.line)\n            data.extend(value.to_bytes(width, \'little\', signed=value < 0))\n')]),
+    ('p15-error-at-builder', ['C15'], [(A, "    def __init__(self, message, line):\n        super().__init__(message)\n        self.message = message\n        self.line = line\n\n    def __str__(self):\n        return '{}\\nAssemblerError: {}'.format(self.line, self.message)\n", "    def __init__(self, message, line):\n        super().__init__(message)\n        self.message = message\n        self.line = line\n\n    def at(self, line):\n        self.line = line\n        return self\n\n    def __str__(self):\n        return '{}\\nAssemblerError: {}'.format(self.line, self.message)\n"), (A, "            raise AssemblerError('alignment must be an integer', line)\n", "            raise AssemblerError('alignment must be an integer', None).at(line)\n")]),
+    ('p15-error-built-then-set', ['C15'], [(A, "            raise AssemblerError('alignment must be an integer', line)\n", "            error = AssemblerError('alignment must be an integer', None)\n            error.line = line\n            raise error\n")]),
+    ('p15-error-no-str', ['C15'], [(A, "    def __init__(self, message, line):\n        super().__init__(message)\n        self.message = message\n        self.line = line\n\n    def __str__(self):\n        return '{}\\nAssemblerError: {}'.format(self.line, self.message)\n", "    def __init__(self, message, line):\n        super().__init__('{}\\nAssemblerError: {}'.format(line, message))\n        self.message = message\n        self.line = line\n")]),
+    ('p15-error-str-helper', ['C15'], [(A, 'class AssemblerError(Exception):', "def render_error(error):\n    return '{}\\nAssemblerError: {}'.format(error.line, error.message)\n\n\nclass AssemblerError(Exception):"), (A, "    def __str__(self):\n        return '{}\\nAssemblerError: {}'.format(self.line, self.message)\n", '    def __str__(self):\n        return render_error(self)\n')]),
+    ('p15-error-str-alias', ['C15'], [(A, "    def __str__(self):\n        return '{}\\nAssemblerError: {}'.format(self.line, self.message)\n", "    def describe(self):\n        return '{}\\nAssemblerError: {}'.format(self.line, self.message)\n\n    __str__ = describe\n")]),
+    ('p15-error-tuple-assign', ['C15'], [(A, "    def __init__(self, message, line):\n        super().__init__(message)\n        self.message = message\n        self.line = line\n\n    def __str__(self):\n        return '{}\\nAssemblerError: {}'.format(self.line, self.message)\n", "    def __init__(self, message, line):\n        super().__init__(message)\n        self.message, self.line = message, line\n\n    def __str__(self):\n        return '{}\\nAssemblerError: {}'.format(self.line, self.message)\n")]),
+    ('p15-error-star-init', ['C15'], [(A, "    def __init__(self, message, line):\n        super().__init__(message)\n        self.message = message\n        self.line = line\n\n    def __str__(self):\n        return '{}\\nAssemblerError: {}'.format(self.line, self.message)\n", "    def __init__(self, *args):\n        super().__init__(args[0])\n        self.message, self.line = args\n\n    def __str__(self):\n        return '{}\\nAssemblerError: {}'.format(self.line, self.message)\n")]),
+    ('p15-line-str-alias', ['C15'], [(A, '    def __str__(self):\n        s = \'File "{}", line {}\\n  {}\'\n        s = s.format(self.file, self.number, self.contents.lstrip())\n        return s\n', '    def describe(self):\n        s = \'File "{}", line {}\\n  {}\'\n        s = s.format(self.file, self.number, self.contents.lstrip())\n        return s\n\n    __str__ = describe\n')]),
+    ('p15-lines-iter', ['C15'], [(A, '    for i, raw_line in enumerate(source.splitlines(), start=1):\n', '    rows = iter(source.splitlines())\n    for i, raw_line in enumerate(rows, start=1):\n')]),
+    ('p15-lines-star-copy', ['C15'], [(A, '    for i, raw_line in enumerate(source.splitlines(), start=1):\n', '    for i, raw_line in enumerate([*source.splitlines()], start=1):\n')]),
+    ('p15-lines-genexp-copy', ['C15'], [(A, '    for i, raw_line in enumerate(source.splitlines(), start=1):\n', '    for i, raw_line in enumerate((row for row in source.splitlines()), start=1):\n')]),
+    ('p15-lines-slice-copy', ['C15'], [(A, '    for i, raw_line in enumerate(source.splitlines(), start=1):\n', '    rows = source.splitlines()\n    for i, raw_line in enumerate(rows[:], start=1):\n')]),
+    ('p15-handler-keeps-assembler-error', ['C15'], [(A, '        try:\n            data = struct.pack(item.fmt, item.imm)\n        except struct.error as e:\n            raise AssemblerError(\'value {} does not fit pack format "{}": {}\'.format(item.imm, item.fmt, e), item.line)\n', '        try:\n            data = struct.pack(item.fmt, item.imm)\n        except Exception as e:\n            if isinstance(e, AssemblerError):\n                raise\n            raise AssemblerError(\'value {} does not fit pack format "{}": {}\'.format(item.imm, item.fmt, e), item.line)\n')]),
+    ('p15-pack-error-alias', ['C15'], [(A, 'def resolve_packs(items):', 'PackError = struct.error\n\n\ndef resolve_packs(items):'), (A, '        try:\n            data = struct.pack(item.fmt, item.imm)\n        except struct.error as e:\n            raise AssemblerError(\'value {} does not fit pack format "{}": {}\'.format(item.imm, item.fmt, e), item.line)\n', '        try:\n            data = struct.pack(item.fmt, item.imm)\n        except PackError as e:\n            raise AssemblerError(\'value {} does not fit pack format "{}": {}\'.format(item.imm, item.fmt, e), item.line)\n')]),
+    ('p15-map-partial-int', ['C15'], [(A, 'import abc\n', 'import abc\nimport functools\n'), (A, '        try:\n            values = [int(value, base=0) for value in item.values]\n        except ValueError as e:\n            raise AssemblerError(str(e), item.line)\n', '        try:\n            values = list(map(functools.partial(int, base=0), item.values))\n        except ValueError as e:\n            raise AssemblerError(str(e), item.line)\n')]),
     ('p15-lexer-findall', ['C15'], [(A, "    tokens = re.split(r'[\\s,]+', contents)\n\n    # remove empty tokens\n    while '' in tokens:\n        tokens.remove('')\n", "    tokens = re.findall(r'[^\\s,]+', contents)\n")]),
     ('p15-local-rule-class', ['C15'], [(A, '    position = 0\n    new_items = []\n    for item in items:\n        # skip non-instructions and pseudo-instructions\n', '    class Rule:\n        def __init__(self, form, checks):\n            self.form = form\n            self.checks = checks\n\n        def matches(self, item, position, env):\n            return all(check(item, position, env) for check in self.checks)\n\n    rules = [Rule(form, checks) for form, checks in criteria.items()]\n\n    position = 0\n    new_items = []\n    for item in items:\n        # skip non-instructions and pseudo-instructions\n', 0), (A, '        try:\n            for name, preds in criteria.items():\n                if all(pred(item, position, env) for pred in preds):\n                    compressed = name\n                    break\n        except ValueError as e:\n            raise AssemblerError(str(e), item.line)\n', '        try:\n            for rule in rules:\n                if rule.matches(item, position, env):\n                    compressed = rule.form\n                    break\n        except ValueError as e:\n            raise AssemblerError(str(e), item.line)\n')]),
     ('p15-map-stages', ['C15'], [(A, '    tokens = [lex_tokens(l) for l in lines]\n    tokens = [t for t in tokens if len(t) > 0]\n    items = [parse_item(t) for t in tokens]\n', '    tokens = [t for t in map(lex_tokens, lines) if len(t) > 0]\n    items = list(map(parse_item, tokens))\n')]),
@@ -448,6 +513,14 @@ PRESERVING = [
 # edits that move the code outside what the analysis can decide: the check must end with ANALYSIS-ERROR (exit 2),
 # neither pass nor claim a violation
 UNDECIDED = [
+    ('c15-line-rebuilt-shifted', ['C15'], [(A, "            line.contents = '{} {}'.format(raw_line, size)\n", "            line = Line(line.file, line.number + 1, '{} {}'.format(raw_line, size))\n")]),
+    ('c15-regex-word-group', ['C15'], [(A, 'def parse_item(line_tokens):', "RE_DECIMAL = re.compile(r'(\\w+)$')\n\n\ndef parse_item(line_tokens):"), (A, "        try:\n            alignment = int(alignment, base=0)\n        except ValueError:\n            raise AssemblerError('alignment must be an integer', line)\n", "        decimal = RE_DECIMAL.match(alignment)\n        if decimal is not None and not alignment.startswith('0'):\n            alignment = int(decimal.group(1))\n        else:\n            try:\n                alignment = int(alignment, base=0)\n            except ValueError:\n                raise AssemblerError('alignment must be an integer', line)\n")]),
+    ('c15-opaque-code-only', ['C15'], [(A, 'def resolve_blobs(items):\n', "def resolve_blobs(items):\n    exec('pass')\n")]),
+    # round 7: table lookups with user keys, conversions behind the repository's own predicate, elements read back
+    ('c15-revisit-appended-element', ['C15'], [(A, "        # swap out the instruction for its compressed counterpart\n        if compressed is not None:\n            if compressed == 'c.addi4spn':", "        if compressed == 'c.ebreak' and new_items:\n            prev = new_items[-1]\n            if isinstance(prev, RTypeInstruction) and prev.name == 'slli' and lookup_register(prev.rd) == 0:\n                compressed = None\n\n        # swap out the instruction for its compressed counterpart\n        if compressed is not None:\n            if compressed == 'c.addi4spn':")]),
+    ('c15-lines-iter-skip-first', ['C15'], [(A, '    for i, raw_line in enumerate(source.splitlines(), start=1):\n', '    rows = iter(source.splitlines())\n    next(rows, None)\n    for i, raw_line in enumerate(rows, start=1):\n')]),
+    ('c15-line-str-vars', ['C15'], [(A, '    def __str__(self):\n        s = \'File "{}", line {}\\n  {}\'\n        s = s.format(self.file, self.number, self.contents.lstrip())\n        return s\n', '    def __str__(self):\n        return \'File "{file}", line {number}\\n  \'.format(**vars(self)) + self.contents.lstrip()\n')]),
+    ('c15-lines-deque', ['C15'], [(A, 'import abc\n', 'import abc\nimport collections\n'), (A, '    for i, raw_line in enumerate(source.splitlines(), start=1):\n', '    pending = collections.deque(source.splitlines())\n    i = 0\n    while pending:\n        raw_line = pending.popleft()\n        i += 1\n')]),
     ('c15-lexer-findall-groups', ['C15'], [(A, "    tokens = re.split(r'[\\s,]+', contents)\n\n    # remove empty tokens\n    while '' in tokens:\n        tokens.remove('')\n", "    tokens = [m[0] for m in re.findall(r'(([^\\s,])+)', contents)]\n")]),
     ('c15-size-in-the-middle', ['C15'], [(A, "            line.contents = '{} {}'.format(raw_line, size)", "            line.contents = '{} {} bytes'.format(raw_line, size)")]),
     ('c15-size-token-via-field', ['C15'], [(A, '        _, path, size = tokens\n        size = int(size, base=0)\n', '        operands = {}\n        for position, word in enumerate(tokens):\n            operands[position] = word\n        size = int(operands[2], base=0)\n')]),
@@ -1029,6 +1102,11 @@ BREAKING += _W_BREAKING
 PRESERVING += _W_PRESERVING
 UNDECIDED += _W_UNDECIDED
 
+from .variants_dfu import BREAKING as _D_BREAKING, PRESERVING as _D_PRESERVING, UNDECIDED as _D_UNDECIDED  # noqa: E402
+BREAKING += _D_BREAKING
+PRESERVING += _D_PRESERVING
+UNDECIDED += _D_UNDECIDED
+
 # ---- round 6: the first-match search over a list of rule objects of a local class ----
 _ENV_ANCHOR = "    # used for imm evaluation\n    env = ChainMap(constants, labels)\n"
 _SEARCH_OLD = ("            for name, preds in criteria.items():\n                if all(pred(item, position, env) for pred in preds):\n"
@@ -1049,6 +1127,167 @@ PRESERVING += [
 BREAKING += [
     ('c6-rule-objects-drop-name-check', ['C04'], [(A, _ENV_ANCHOR, _rule_class(checks='checks[1:]')), (A, _SEARCH_OLD, _SEARCH_OBJ)]),
 ]
+
+
+# ---- C13 white-box audit (round 6): behaviour-preserving edits aimed at every place a C13 finding is raised ----
+_REG_TABLE_END = "    31: 31, '31': 31, 'x31': 31, 't6':   31,\n}\n"
+_BO_SET = "    'lbu',\n    'lhu',\n    'sb',"
+_REGSMATCH = ("            reg_a = getattr(i, a)\n            reg_a = lookup_register(reg_a)\n            reg_b = getattr(i, b)\n            reg_b = lookup_register(reg_b)\n"
+              "            return reg_a == reg_b\n")
+_RD_COUNTER_BOTH = ("    i = 0\n    for raw_line in source.splitlines():\n        # skip empty lines\n        if len(raw_line.strip()) == 0:\n            i += 1\n            continue\n        i += 1\n")
+
+PRESERVING += [
+    # W01 R13.7: the base of int() is a named module constant
+    ('w13-isint-named-base', ['C13'], [(A, "def is_int(value):\n    try:\n        int(value, base=0)", "AUTO_BASE = 0\n\n\ndef is_int(value):\n    try:\n        int(value, base=AUTO_BASE)")]),
+    # W02 R13.7: regex form spelled as an if / return pair
+    ('w13-isint-regex-if-form', ['C13'], [(A, _IS_INT, "RE_INT = re.compile(r'" + _INT_EXACT + "')\n\n\ndef is_int(value):\n    if RE_INT.fullmatch(value) is None:\n        return False\n    return True\n")]),
+    # W03 / W04 R13.1 table: an alias added to the literal table by a separate statement
+    ('w13-registers-update-literal', ['C13'], [(A, "'s0':   8, 'fp': 8,", "'s0':   8,"), (A, _REG_TABLE_END, _REG_TABLE_END + "REGISTERS.update({'fp': 8})\n")]),
+    # W05 R13.2: a set entry added by a separate statement
+    ('w13-base-offset-add', ['C13'], [(A, _BO_SET, "    'lbu',\n    'sb',"), (A, "    'c.lw',\n    'c.sw',\n}\n", "    'c.lw',\n    'c.sw',\n}\nBASE_OFFSET_INSTRUCTIONS.add('lhu')\n")]),
+    ('w13-base-offset-ior', ['C13'], [(A, _BO_SET, "    'lbu',\n    'sb',"), (A, "    'c.lw',\n    'c.sw',\n}\n", "    'c.lw',\n    'c.sw',\n}\nBASE_OFFSET_INSTRUCTIONS |= {'lhu'}\n")]),
+    # W06 R13.3 deletes: the padding substitution swallows separators (blanks and commas) around the paren and writes blanks back
+    ('w13-pad-resub-swallows-separators', ['C13'], [(A, _LEX_PAD, "    contents = re.sub(r'[\\s,]*([()])[\\s,]*', r' \\1 ', contents)")]),
+    # W07 / W08 R13.4: other spellings of `# to the end of the line`
+    ('w13-comment-optional-newline', ['C13'], [(A, _LEX_COMMENT, "    contents = re.sub(r'#.*\\n?', '', line.contents)")]),
+    ('w13-comment-group', ['C13'], [(A, _LEX_COMMENT, "    contents = re.sub(r'#(.*)$', '', line.contents)")]),
+    ('w13-comment-any-class', ['C13'], [(A, _LEX_COMMENT, "    contents = re.sub(r'#[\\s\\S]*', '', line.contents)")]),
+    # W10 R13.4: the comment is cut only when there is one
+    ('w13-comment-conditional-cut', ['C13'], [(A, _LEX_COMMENT, "    contents = line.contents\n    if '#' in contents:\n        contents = contents.split('#', 1)[0]")]),
+    # W11 R13.5: strip spelled as lstrip + rstrip
+    ('w13-lstrip-rstrip', ['C13'], [(A, "    contents = contents.strip()\n", "    contents = contents.lstrip().rstrip()\n")]),
+    # W12 R13.4 anywhere: an anchored pattern wrapped in a group, applied with search
+    ('w13-literal-search-anchored-group', ['C13'], [(A, _RE_STR_DEF, "    RE_STRING = re.compile(r'(?:^\\s*string (.*))')"),
+                                                    (A, "    match = RE_STRING.match(line.contents)", "    match = RE_STRING.search(line.contents)")]),
+    # W13 R13.5 numbering: the counter advances on the skipping path as well
+    # W14 R13.5 hand-over: filter by the unbound __len__
+    ('w13-handover-filter-dunder-len', ['C13'], [(A, "    tokens = [t for t in tokens if len(t) > 0]\n", "    tokens = list(filter(LineTokens.__len__, tokens))\n")]),
+    # W18 R13.5 hand-over: emptiness decided by a helper predicate
+    ('w13-handover-helper-predicate', ['C13'], [(A, "def assemble(path_or_source, *, constants=None", "def has_tokens(line_tokens):\n    return len(line_tokens) > 0\n\n\ndef assemble(path_or_source, *, constants=None"),
+                                                (A, "    tokens = [t for t in tokens if len(t) > 0]\n", "    tokens = [t for t in tokens if has_tokens(t)]\n")]),
+    # W17 R13.1 operand spelling: the numeric spelling is converted and handed to the same construction
+    # W19 R13.7 / R13.1: the numeric-literal helper under another name
+    ('w13-isint-renamed', ['C13'], [(A, "is_int(", "is_integer_literal(", 'all')]),
+    # W20 R13.6: the register numbers are taken by a local helper of the predicate factory
+    ('w13-regsmatch-helper', ['C13'], [(A, _REGSMATCH, "            def number(field):\n                return lookup_register(getattr(i, field))\n            return number(a) == number(b)\n")]),
+]
+
+UNDECIDED += [
+    # W15: lines are screened by their text before lexing, no check on the token lines: not `comment-only lines reach the parser`
+    ('w13-handover-lines-screened', ['C13'], [(A, _ASM_FRONT, "    lines = [l for l in lines if l.contents.split('#')[0].strip(', \\t')]\n    items = [parse_item(lex_tokens(l)) for l in lines]\n")]),
+]
+
+PRESERVING += [
+    # an alias added by item assignment after the literal: folded by the program model (facts._module_setitem) and therefore seen by the
+    # encoder interpreter too (was: no verdict, bitdom withheld it for a table written outside its literal)
+    ('w13-registers-item-assignment', ['C13'], [(A, "'s0':   8, 'fp': 8,", "'s0':   8,"), (A, _REG_TABLE_END, _REG_TABLE_END + "# the frame pointer is another name of s0\nREGISTERS['fp'] = 8\n")]),
+]
+
+UNDECIDED += [
+    # accepted by the C13 rules themselves; the verdict is withheld by a shared engine (wiring: int(token) as a constructor argument)
+    # or by a loop shape the reader rule does not follow (counter advanced on two paths)
+    ('w13-counter-both-paths', ['C13'], [(A, _RD_LOOP + _RD_SKIP, _RD_COUNTER_BOTH)]),
+    ('w13-rtype-number-converted', ['C13'], [(A, _RTYPE_RET, _RTYPE_HEAD + "        if is_int(rs2):\n            return RTypeInstruction(line, name, rd, rs1, int(rs2, 0))\n"
+                                              "        return RTypeInstruction(line, name, rd, rs1, rs2)\n")]),
+]
+
+# breaking / undecided counterparts of the audit twins: the same constructs with the property actually broken
+BREAKING += [
+    ('w13x-isint-named-base-10', ['C13'], [(A, "def is_int(value):\n    try:\n        int(value, base=0)", "AUTO_BASE = 10\n\n\ndef is_int(value):\n    try:\n        int(value, base=AUTO_BASE)")]),
+    ('w13x-isint-regex-if-form-lowercase', ['C13'], [(A, _IS_INT, "RE_INT = re.compile(r'[+-]?(0x[0-9a-f]+|0b[01]+|0o[0-7]+|[0-9]+)')\n\n\ndef is_int(value):\n    if RE_INT.fullmatch(value) is None:\n        return False\n    return True\n")]),
+    ('w13x-registers-update-wrong-number', ['C13'], [(A, "'s0':   8, 'fp': 8,", "'s0':   8,"), (A, _REG_TABLE_END, _REG_TABLE_END + "REGISTERS.update({'fp': 9})\n")]),
+    ('w13x-base-offset-add-other', ['C13'], [(A, _BO_SET, "    'lbu',\n    'sb',"), (A, "    'c.lw',\n    'c.sw',\n}\n", "    'c.lw',\n    'c.sw',\n}\nBASE_OFFSET_INSTRUCTIONS.add('lh')\n")]),
+    ('w13x-pad-resub-swallows-word-char', ['C13'], [(A, _LEX_PAD, "    contents = re.sub(r'[\\s,]*([()])\\w?', r' \\1 ', contents)")]),
+    ('w13x-comment-group-one-char', ['C13'], [(A, _LEX_COMMENT, "    contents = re.sub(r'#(.)$', '', line.contents)")]),
+    ('w13x-comment-optional-newline-lazy', ['C13'], [(A, _LEX_COMMENT, "    contents = re.sub(r'#.*?\\n?', '', line.contents)")]),
+    ('w13x-comment-conditional-cut-unused', ['C13'], [(A, _LEX_COMMENT, "    contents = line.contents\n    if '#' in contents:\n        without_comment = contents.split('#', 1)[0]")]),
+    ('w13x-isint-renamed-base-10', ['C13'], [(A, "is_int(", "is_integer_literal(", 'all'), (A, "        int(value, base=0)\n        return True", "        int(value)\n        return True")]),
+]
+
+UNDECIDED += [
+    ('w13x-isint-regex-inverted', ['C13'], [(A, _IS_INT, "RE_INT = re.compile(r'" + _INT_EXACT + "')\n\n\ndef is_int(value):\n    return RE_INT.fullmatch(value) is None\n")]),
+    ('w13x-handover-filter-dunder-str', ['C13'], [(A, "    tokens = [t for t in tokens if len(t) > 0]\n", "    tokens = list(filter(LineTokens.__str__, tokens))\n")]),
+    ('w13x-handover-helper-predicate-odd', ['C13'], [(A, "def assemble(path_or_source, *, constants=None", "def has_tokens(line_tokens):\n    return line_tokens is not None\n\n\ndef assemble(path_or_source, *, constants=None"),
+                                                     (A, "    tokens = [t for t in tokens if len(t) > 0]\n", "    tokens = [t for t in tokens if has_tokens(t)]\n")]),
+    ('w13x-rtype-number-converted-base-10', ['C13'], [(A, _RTYPE_RET, _RTYPE_HEAD + "        if is_int(rs2):\n            return RTypeInstruction(line, name, rd, rs1, int(rs2, 10))\n"
+                                                       "        return RTypeInstruction(line, name, rd, rs1, rs2)\n")]),
+    ('w13x-pad-resub-swallows-no-blanks', ['C13'], [(A, _LEX_PAD, "    contents = re.sub(r'[\\s,]*([()])[\\s,]*', r'\\1', contents)")]),
+    ('w13x-isint-missing', ['C13'], [(A, "        if is_int(reference):\n            imm = [reference]\n        else:\n            # behavior is \"offset\" for branches to labels\n            imm = ['%offset', reference]\n",
+                                      "        imm = [reference] if reference[:1].isdigit() else ['%offset', reference]\n"),
+                                     (A, "        if is_int(reference):\n            imm = [reference]\n        else:\n            # behavior is \"offset\" for jumps to labels\n            imm = ['%offset', reference]\n",
+                                      "        imm = [reference] if reference[:1].isdigit() else ['%offset', reference]\n"),
+                                     (A, "is_int(", "looks_numeric(", 'all')]),
+]
+
+_B_ARM_INT = "        if is_int(reference):\n            imm = [reference]\n        else:\n            # behavior is \"offset\" for branches to labels\n            imm = ['%offset', reference]\n"
+_J_ARM_INT = "        if is_int(reference):\n            imm = [reference]\n        else:\n            # behavior is \"offset\" for jumps to labels\n            imm = ['%offset', reference]\n"
+_IS_LABEL = "def is_label(text):\n    return not is_int(text)\n\n\ndef sign_extend(value, bits):"
+
+PRESERVING += [
+    # W21 R13.2: an entry of the base-offset set that is no mnemonic (never consulted)
+    ('w13-base-offset-dead-entry', ['C13'], [(A, "    'c.lw',\n    'c.sw',\n}\n", "    'c.lw',\n    'c.sw',\n    'ld',      # RV64, not assembled yet\n}\n")]),
+    # W22 R13.7 helper discovery: a `this is a name` predicate decides the other way round - it is not the numeric-literal helper
+    ('w13-islabel-predicate', ['C13'], [(A, "def sign_extend(value, bits):", _IS_LABEL),
+                                        (A, _B_ARM_INT, "        if is_label(reference):\n            imm = ['%offset', reference]\n        else:\n            imm = [reference]\n"),
+                                        (A, _J_ARM_INT, "        if is_label(reference):\n            imm = ['%offset', reference]\n        else:\n            imm = [reference]\n")]),
+]
+
+BREAKING += [
+    ('w13x-base-offset-live-extra', ['C13'], [(A, "    'c.lw',\n    'c.sw',\n}\n", "    'c.lw',\n    'c.sw',\n    'addi',\n}\n")]),
+    # a lexer the rules do not follow must not mask the reader's violation (no-verdicts are deferred to the end of the run)
+    ('w13x-violation-next-to-no-verdict', ['C13'], [(A, _LEX_STRIP, "    contents = contents.strip().lower()\n"),
+                                                    (A, "    for i, raw_line in enumerate(source.splitlines(), start=1):", "    for i, raw_line in enumerate([l for l in source.splitlines() if l.strip()], start=1):")]),
+]
+
+
+# ---- C13 round 7: comments start at `#` only; comment lines are never directives; carriage returns left on lines ----
+_RD_INCLUDE_TEST = "        if raw_line.lower().startswith('include '):"
+_RD_INCLUDE_SUB = "                raw_include = re.sub(r'#.*$', r'', raw_line)"
+
+BREAKING += [
+    # `//` cuts expressions: VALUE = 100 // 7 defines 100
+    ('c13-comment-also-slashes', ['C13'], [(A, _LEX_COMMENT, "    contents = re.sub(r'(#|//).*$', r'', line.contents)")]),
+    ('c13-comment-also-semicolon', ['C13'], [(A, _LEX_COMMENT, "    contents = re.sub(r'[#;].*', '', line.contents)")]),
+    # a commented-out include is executed
+    ('c13-reader-hash-include', ['C13'], [(A, _RD_INCLUDE_TEST, "        if raw_line.lower().startswith(('include ', '#include ')):"),
+                                          (A, _RD_INCLUDE_SUB, "                raw_include = re.sub(r'#.*$', r'', raw_line.lstrip('#'))")]),
+    ('c13-reader-hash-stripped-first', ['C13'], [(A, _RD_INCLUDE_TEST, "        if raw_line.lstrip('# ').lower().startswith('include '):"),
+                                                 (A, _RD_INCLUDE_SUB, "                raw_include = re.sub(r'#.*$', r'', raw_line.lstrip('# '))")]),
+    # \r\n files: every line keeps its \r, and `string` takes the rest of the line verbatim
+    ('c13-split-newline', ['C13'], [(A, _RD_LOOP, "    for i, raw_line in enumerate(source.split('\\n'), start=1):\n")]),
+]
+
+PRESERVING += [
+    ('p13-reader-skip-comment-lines', ['C13'], [(A, _RD_SKIP, _RD_SKIP + "        # whole-line comments carry nothing\n        if raw_line.lstrip().startswith('#'):\n            continue\n")]),
+    # (C13 only: the lines agree for \n and \r\n files; other line separators of splitlines() are no documented freedom)
+    ('p13-split-newline-rstrip', ['C13'], [(A, _RD_LOOP, "    for i, raw_line in enumerate(source.split('\\n'), start=1):\n        raw_line = raw_line.rstrip('\\r')\n")]),
+    ('p13-split-newline-literals-exclude-cr', ['C13'], [(A, _RD_LOOP, "    for i, raw_line in enumerate(source.split('\\n'), start=1):\n"),
+                                                        (A, _RE_ERR_DEF, "    RE_ERROR = re.compile(r'\\s*error ([^\\r\\n]*)')"),
+                                                        (A, _RE_STR_DEF, "    RE_STRING = re.compile(r'\\s*string ([^\\r\\n]*)')")]),
+]
+
+UNDECIDED += [
+    ('u13-comment-alternation-hash-only', ['C13'], [(A, _LEX_COMMENT, "    contents = re.sub(r'(#|\\s+#).*$', r'', line.contents)")]),
+    ('u13-split-newline-literal-word-tail', ['C13'], [(A, _RD_LOOP, "    for i, raw_line in enumerate(source.split('\\n'), start=1):\n"),
+                                                      (A, _RE_ERR_DEF, "    RE_ERROR = re.compile(r'\\s*error ([^\\r\\n]*)')"),
+                                                      (A, _RE_STR_DEF, "    RE_STRING = re.compile(r'\\s*string ([\\w ]*)')")]),
+]
+
+# ---- white-box round on C11 / C16 / C17 ----
+from .variants_whitebox import BREAKING as _WB_BREAKING, PRESERVING as _WB_PRESERVING, UNDECIDED as _WB_UNDECIDED  # noqa: E402
+BREAKING += _WB_BREAKING
+PRESERVING += _WB_PRESERVING
+UNDECIDED += _WB_UNDECIDED
+UNDECIDED += [
+    # formerly listed as breaking: the loop over `REGS & set(d.keys())` fills a dict that is only used for d.update(...) on keys that
+    # exist already, so the field order - and the rebuilt item - do not depend on the hash seed; the rule no longer claims they do
+    ('c16-set-iteration-update-existing', ['C16'], [(A, "        for key, value in d.items():\n            # skip if item field is not a register\n            if key not in REGS:\n                continue", "        for key in REGS & set(d.keys()):\n            value = d[key]")]),
+]
+# ---- round 7: white-box audit of C01 / C02 / C06 / C07 (program model, %hi / %lo evaluation rule, rebuild invariant, pack rule) ----
+from .variants_w5 import BREAKING as _W5_BREAKING, PRESERVING as _W5_PRESERVING, UNDECIDED as _W5_UNDECIDED  # noqa: E402
+BREAKING += _W5_BREAKING
+PRESERVING += _W5_PRESERVING
+UNDECIDED += _W5_UNDECIDED
 
 # ---- white-box round: layout engines (C03 C08 C09 C20) ----
 from .variants_layout import BREAKING as _LAY_BREAKING, PRESERVING as _LAY_PRESERVING, UNDECIDED as _LAY_UNDECIDED  # noqa: E402
